@@ -57,6 +57,10 @@ THEOREMS = [
     dict(name="Snow.C06.nonvacuous", clause="ALL hypotheses of run_admissible_partial / run_bounds_partial hold together "
          "for a concrete input (C05.WF program with a hold, Stable, start <= T_k_0 <= hi, SideCond along the run's "
          "trajectory — t_tot = 0, initial column only)", strength="nonvacuity"),
+    dict(name="Snow.C06.nonvacuous_run", clause="the run theorems applied to a concrete 4-column run WITH ice (one vial, "
+         "controlled nucleation at step 0, sigma = 1/2, 19/32, 8933/13600): C05.WF, Stable, SideCond at every step and "
+         "TrajAdm hold; run_admissible_partial, run_bounds_partial and ice_iff_recorded are each applied to a column "
+         "containing ice", strength="nonvacuity"),
     dict(name="monitored:finite", clause="all reported values are finite (vacuous over the reals; checked on the floats "
          "of every real run)", strength="monitored"),
     dict(name="monitored:side_condition", clause="the side condition of the partial theorems holds on every real "
